@@ -108,14 +108,14 @@ every code `base|k` a conforming host can produce for a write that offered `rema
 (`k ≤ remaining`) the write yields `Complete(k)` — `Dropped` / `Cancelled` only for `k = 0` —, the buffer
 it hands back has advanced by exactly `k` (the values the host took are exactly the first `k` of the
 window, the rest is untouched and still owned by the writer), and the writer is marked done exactly
-for DROPPED with `k > 0`.  A count beyond what was offered makes the runtime panic instead of
+for DROPPED (any count, 0 included).  A count beyond what was offered makes the runtime panic instead of
 corrupting the buffer. -/
 theorem counts_are_hosts_write (p : WSt) (base k : Nat) (hb : base < 3) (hk2 : k ≤ 268435455)
     (hc : p.buf.cursor ≤ p.buf.items.length) :
     (k ≤ p.buf.remaining →
       streamWriteUpdate p (Host.packCode base k) =
         .ok (.inl (sresOf base k,
-          { buf := { p.buf with cursor := p.buf.cursor + k }, wr := { p.wr with done := p.wr.done || (base == 1 && k != 0) } }))
+          { buf := { p.buf with cursor := p.buf.cursor + k }, wr := { p.wr with done := p.wr.done || base == 1 } }))
           (if p.buf.kind = .lists then (p.buf.window.take k).map (evDli p.buf.c) else [])) ∧
     (p.buf.remaining < k → ∃ m evs, streamWriteUpdate p (Host.packCode base k) = .panic m evs) :=
   ⟨fun hk => streamWrite_update_spec p base k hb hk hk2 hc, fun hk => streamWrite_update_panics p base k hb hk hk2⟩
@@ -124,12 +124,12 @@ theorem counts_are_hosts_write (p : WSt) (base k : Nat) (hb : base < 3) (hk2 : k
 every code `base|k` with `k` within the spare capacity the read yields `Complete(k)` (`Dropped` /
 `Cancelled` only for `k = 0`), appends exactly the first `k` values the host wrote — each lifted exactly
 once, in order, when the payload needs lifting —, releases its slab, and marks the reader done exactly
-for DROPPED with `k > 0`. -/
+for DROPPED (any count, 0 included). -/
 theorem counts_are_hosts_read (p : RSt) (base k : Nat) (hb : base < 3) (hk : k ≤ p.spare) (hk2 : k ≤ 268435455) :
     streamReadUpdate p (Host.packCode base k) =
       .ok (.inl (sresOf base k,
         { p with buf := p.buf ++ p.mem.take k, spare := p.spare - k, slab := false, mem := [],
-                 rd := { p.rd with done := p.rd.done || (base == 1 && k != 0) } }))
+                 rd := { p.rd with done := p.rd.done || base == 1 } }))
         ((if p.kind.lowers then (p.mem.take k).map (evLi p.c) else []) ++ p.freeSlab) :=
   streamRead_update_spec p base k hb hk hk2
 
@@ -153,7 +153,7 @@ loop of `write_all` / `write_one`, or `write_buf` — has its pointer exactly `k
 further, offers exactly the remaining values, and the values behind the pointer are the old window without its
 first `k` values. -/
 theorem resumed_write_points_past_the_transferred (p : WSt) (base k ans esize : Nat) (hb : base < 3) (hk : k ≤ p.buf.remaining)
-    (hk2 : k ≤ 268435455) (hc : p.buf.cursor ≤ p.buf.items.length) (hnd : (p.wr.done || (base == 1 && k != 0)) = false) :
+    (hk2 : k ≤ 268435455) (hc : p.buf.cursor ≤ p.buf.items.length) (hnd : (p.wr.done || base == 1) = false) :
     ∃ r st evs, streamWriteUpdate p (Host.packCode base k) = .ok (.inl (r, st)) evs ∧
       (streamWriteOps.start st ans).1.map (Ev.scaleOff esize) =
         [.ch .swrite [p.wr.handle, min (p.buf.remaining - k) Limits.streamMaxLength, ans, (p.buf.cursor + k) * esize]] ∧
@@ -179,7 +179,7 @@ theorem host_read_pointer_is_vector_end (s : RSt) (ans esize : Nat) (hd : s.rd.d
 is `write_all_terminates_when_host_progresses`.  The path BLOCKED → peer takes items → event delivered →
 poll is a different sequence of labels of the transition system; that each of its steps is panic-free and
 ends in the same `running` continuation with the buffer advanced by the host's count is part of
-`stream_never_traps_partial`, shapes `waiting → queued → running`.) -/
+`stream_never_traps`, shapes `waiting → queued → running`.) -/
 theorem write_all_step_progress (g : GChan) (e : Env) (one first : Bool) (st : WSt) (k : Nat)
     (hd : st.wr.done = false) (hk1 : 1 ≤ k) (hk : k ≤ st.buf.remaining) (hk2 : k ≤ 268435455)
     (hc : st.buf.cursor ≤ st.buf.items.length) :
@@ -236,132 +236,69 @@ therefore hold for stream reads and writes (and, `Props/C20.lean`, for future re
 theorem stream_ops_stable : streamWriteOps.Stable ∧ streamReadOps.Stable :=
   ⟨streamWriteOps_stable, streamReadOps_stable⟩
 
-/-! ## After `StreamResult::Dropped` the end is not marked done: the full statement is false
+/-! ## After `StreamResult::Dropped` the end is marked done
 
-Full-strength statement (host trap-freedom of the stream operations for every script and every legal
-host behaviour):
-
-    ∀ s tr, CReach (ChanSys.init c false gw kind t) s tr → s.h.trapped = false
-
-is FALSE of the current code: `in_progress_update` sets `writer.done` / `reader.done` only in the
-`Dropped(amt)` arm with `amt > 0`; for the code DROPPED|0 it returns `StreamResult::Dropped` and leaves the
-flag clear, so the next `write` / `read` on that end calls the built-in on an end the host has marked
-done — a trap (Appendix B: `read`/`write` trap unless idle).  Witness below: write one value, the peer
-drops, the event DROPPED|0 is delivered, the body writes again.  Known finding class
-`stream-op-after-dropped-zero`.  What does hold — the flag IS set whenever something was transferred
-before the drop, and a set flag keeps every later operation away from the host — is
-`dropped_sets_done_partial`. -/
+Before the repair (`fix:` commit in /repo, see known_findings.jsonl `fixed: property=C19`) `in_progress_update`
+set `writer.done` / `reader.done` only in the `Dropped(amt)` arm with `amt > 0`; for the code DROPPED|0 it
+returned `StreamResult::Dropped` with the flag clear, so the next `write` / `read` on that end called the built-in
+on an end the host had marked done — a trap (Appendix B: `read`/`write` trap unless idle).  The model follows the
+repaired code: both `Dropped(0)` arms set the flag.  The former witness run is kept as a regression example: the
+second write no longer reaches the host. -/
 
 def f10Init : ChanSys := ChanSys.init 0 false true .canon ⟨1, 2⟩
 
 def f10Labels : List CLabel :=
   [.opn 1 2, .write 1, .poll Host.BLOCKED, .peerDrop, .deliver, .poll 0, .write 1, .poll Host.DROPPED]
 
-/-- the witness run: the second write reaches the host although the end is done -/
-theorem f10_witness :
-    (runLabels f10Init f10Labels).map (fun r => (r.1.h.trapped, r.2)) =
-      some (true,
+/-- the former witness run (write one value, the peer drops, DROPPED|0 is delivered, the body writes again): the
+second write answers `Dropped` by itself — no `stream.write`, no trap — and the writer is marked done -/
+theorem dropped_zero_run_stays_away_from_the_host :
+    (runLabels f10Init f10Labels).map (fun r => (r.1.h.trapped, r.1.g.sw.map (·.done), r.2)) =
+      some (false, some true,
         [.ch .opn [0], .ch .snew [1, 2], .ch .moved [2], .ch .iw [0, 1, 1], .ch .swrite [1, 1, 4294967295, 0], .clone 1,
          .reg 1 1 false, .poll 0 .pend, .ch .pd [0], .dlv 1 1, .poll 0 .ready, .tdrop 1, .ch .wres [0, 1, 0, 1],
-         .ch .iw [0, 2, 1], .other "!trap:copy-after-done", .ch .swrite [1, 1, 1, 0], .poll 0 .ready,
-         .ch .wres [0, 1, 0, 1]]) := by
+         .ch .iw [0, 2, 1], .poll 0 .ready, .ch .wres [0, 1, 0, 1]]) := by
   rfl
 
-theorem stream_never_traps_full_false :
-    ¬ ∀ s tr, CReach f10Init s tr → s.h.trapped = false := by
-  intro hall
-  have r0 : CReach f10Init f10Init [] := .init
-  have step : ∀ {s tr} (l : CLabel) {s' evs}, CReach f10Init s tr → CLegal s l → s.step l = .ok s' evs →
-      CReach f10Init s' (tr ++ evs) := by
-    intro s tr l s' evs hr hl hs; exact CReach.step hr hl hs
-  -- open, write(1), poll -> BLOCKED, peer drops, deliver DROPPED|0, poll -> Dropped, write(1), poll -> trap
-  obtain ⟨s1, e1, h1⟩ : ∃ s' e, f10Init.step (.opn 1 2) = .ok s' e := ⟨_, _, rfl⟩
-  have r1 := step (.opn 1 2) r0 (by simp [CLegal, f10Init, ChanSys.init]) h1
-  obtain ⟨s2, e2, h2⟩ : ∃ s' e, s1.step (.write 1) = .ok s' e := by
-    simp only [f10Init, ChanSys.init] at h1; cases h1; exact ⟨_, _, rfl⟩
-  have r2 := step (.write 1) r1 (by simp only [f10Init, ChanSys.init] at h1; cases h1; simp [CLegal]) h2
-  obtain ⟨s3, e3, h3⟩ : ∃ s' e, s2.step (.poll Host.BLOCKED) = .ok s' e := by
-    simp only [f10Init, ChanSys.init] at h1; cases h1; cases h2; exact ⟨_, _, rfl⟩
-  have r3 := step (.poll Host.BLOCKED) r2 (by
-    simp only [f10Init, ChanSys.init] at h1; cases h1; cases h2
-    simp [CLegal, Host.End.legalImmediate, Host.BLOCKED]) h3
-  obtain ⟨s4, e4, h4⟩ : ∃ s' e, s3.step .peerDrop = .ok s' e := ⟨_, _, rfl⟩
-  have r4 := step .peerDrop r3 (by
-    simp only [f10Init, ChanSys.init] at h1; cases h1; cases h2; cases h3; exact ⟨rfl, rfl, fun _ => by decide⟩) h4
-  obtain ⟨s5, e5, h5⟩ : ∃ s' e, s4.step .deliver = .ok s' e := by
-    simp only [f10Init, ChanSys.init] at h1; cases h1; cases h2; cases h3; cases h4; exact ⟨_, _, rfl⟩
-  have r5 := step .deliver r4 (by
-    simp only [f10Init, ChanSys.init] at h1; cases h1; cases h2; cases h3; cases h4
-    refine ⟨rfl, rfl, by decide, ⟨1, 2⟩, rfl, by decide⟩) h5
-  obtain ⟨s6, e6, h6⟩ : ∃ s' e, s5.step (.poll 0) = .ok s' e := by
-    simp only [f10Init, ChanSys.init] at h1; cases h1; cases h2; cases h3; cases h4; cases h5; exact ⟨_, _, rfl⟩
-  have r6 := step (.poll 0) r5 (by
-    simp only [f10Init, ChanSys.init] at h1; cases h1; cases h2; cases h3; cases h4; cases h5
-    refine ⟨rfl, ?_⟩
-    intro n hn; simp [GChan.offer] at hn) h6
-  obtain ⟨s7, e7, h7⟩ : ∃ s' e, s6.step (.write 1) = .ok s' e := by
-    simp only [f10Init, ChanSys.init] at h1; cases h1; cases h2; cases h3; cases h4; cases h5; cases h6; exact ⟨_, _, rfl⟩
-  have r7 := step (.write 1) r6 (by
-    simp only [f10Init, ChanSys.init] at h1; cases h1; cases h2; cases h3; cases h4; cases h5; cases h6
-    exact ⟨rfl, rfl⟩) h7
-  obtain ⟨s8, e8, h8⟩ : ∃ s' e, s7.step (.poll Host.DROPPED) = .ok s' e := by
-    simp only [f10Init, ChanSys.init] at h1; cases h1; cases h2; cases h3; cases h4; cases h5; cases h6; cases h7
-    exact ⟨_, _, rfl⟩
-  have r8 := step (.poll Host.DROPPED) r7 (by
-    simp only [f10Init, ChanSys.init] at h1; cases h1; cases h2; cases h3; cases h4; cases h5; cases h6; cases h7
-    refine ⟨rfl, ?_⟩
-    intro n _ htrap; exact absurd htrap (by decide)) h8
-  have := hall _ _ r8
-  simp only [f10Init, ChanSys.init] at h1; cases h1; cases h2; cases h3; cases h4; cases h5; cases h6; cases h7; cases h8
-  exact absurd this (by decide)
-
-/-- `_partial`: what the code does guarantee about the `done` flag.  (1) A DROPPED code with a non-zero
-count sets it (write and read).  (2) Once it is set, starting a write or a read does not call the
-built-in at all (the operation answers DROPPED by itself), so the host cannot trap on it.  The gap is
-exactly the code DROPPED|0. -/
-theorem dropped_sets_done_partial :
-    (∀ (p : WSt) (k : Nat), 0 < k → k ≤ p.buf.remaining → k ≤ 268435455 → p.buf.cursor ≤ p.buf.items.length →
+/-- **Every DROPPED code marks the end done, and a done end keeps every later operation away from the host.**
+(1) A DROPPED code with ANY count (0 included) sets the flag (write and read).  (2) Once it is set, starting a
+write or a read does not call the built-in at all (the operation answers DROPPED by itself), so the host cannot
+trap on it. -/
+theorem dropped_sets_done :
+    (∀ (p : WSt) (k : Nat), k ≤ p.buf.remaining → k ≤ 268435455 → p.buf.cursor ≤ p.buf.items.length →
       ∃ r st evs, streamWriteUpdate p (Host.packCode Host.DROPPED k) = .ok (.inl (r, st)) evs ∧ st.wr.done = true) ∧
-    (∀ (p : RSt) (k : Nat), 0 < k → k ≤ p.spare → k ≤ 268435455 →
+    (∀ (p : RSt) (k : Nat), k ≤ p.spare → k ≤ 268435455 →
       ∃ r st evs, streamReadUpdate p (Host.packCode Host.DROPPED k) = .ok (.inl (r, st)) evs ∧ st.rd.done = true) ∧
     (∀ (s : WSt) (ans : Nat), s.wr.done = true → (streamWriteOps.start s ans).1 = [] ∧ (streamWriteOps.start s ans).2.1 = Limits.dropped) ∧
-    (∀ (s : RSt) (ans : Nat), s.rd.done = true → (streamReadOps.start s ans).1 = [] ∧ (streamReadOps.start s ans).2.1 = Limits.dropped) ∧
-    -- the gap: DROPPED|0 leaves the flag as it was
-    (∀ (p : WSt), streamWriteUpdate p Host.DROPPED = .ok (.inl (.dropped, p)) []) := by
-  refine ⟨?_, ?_, ?_, ?_, ?_⟩
-  · intro p k hk0 hk hk2 hc
+    (∀ (s : RSt) (ans : Nat), s.rd.done = true → (streamReadOps.start s ans).1 = [] ∧ (streamReadOps.start s ans).2.1 = Limits.dropped) := by
+  refine ⟨?_, ?_, ?_, ?_⟩
+  · intro p k hk hk2 hc
     have := streamWrite_update_spec p 1 k (by omega) hk hk2 hc
-    refine ⟨_, _, _, this, ?_⟩
-    have : k ≠ 0 := by omega
-    simp [this]
-  · intro p k hk0 hk hk2
+    exact ⟨_, _, _, this, by simp⟩
+  · intro p k hk hk2
     have := streamRead_update_spec p 1 k (by omega) hk hk2
-    refine ⟨_, _, _, this, ?_⟩
-    have : k ≠ 0 := by omega
-    simp [this]
+    exact ⟨_, _, _, this, by simp⟩
   · intro s ans hd; simp [streamWriteOps, hd]
   · intro s ans hd; simp [streamReadOps, hd]
-  · intro p; rfl
 
-/-! ## The guest-writer stream channel as a labelled transition system (`_partial`, full strength)
+/-! ## The guest-writer stream channel as a labelled transition system (full strength)
 
 `SWReach p s tr`: state `s` of a guest-writer stream channel (`ChanSys`: the `StreamWriter`, the future the
 body holds — `write` / `write_buf`, `write_all`, `write_one` at any of their `await` points — and a kept
 `AbiBuffer`, on the generic `WaitableOperation` machine, composed with the host's rules for the end) is
-reachable from the fresh channel by labels that are legal (`CLegal`: any body instruction between steps, in
-any order and number — open, write n, write_buf, into_vec, write_all n, write_one, poll, cancel, drop the
-future, drop the end —; for the host exactly what `Host.End` allows: BLOCKED / COMPLETED|k / DROPPED at
-once, the peer taking items in any number of steps or dropping while the end is copying, delivery of the
-pending event, cancel answers = the pending code or any resolved race CANCELLED|k / COMPLETED|k /
-DROPPED|k) AND satisfy the exact extra hypothesis `NoUseAfterDropped`: the body does not poll a write that
-would call the host on an end the host has marked done (i.e. it does not write again after
-`StreamResult::Dropped`).  Any buffers, all payload kinds, both task ABI versions; induction over the step
-relation, no depth bound. -/
+reachable from the fresh channel by legal labels (`SWLegal` = `CLegal` + the opened handle is the channel's: any
+body instruction between steps, in any order and number — open, write n, write_buf, into_vec, write_all n,
+write_one, poll, cancel, drop the future, drop the end —; for the host exactly what `Host.End` allows: BLOCKED /
+COMPLETED|k / DROPPED at once, the peer taking items in any number of steps or dropping while the end is copying,
+delivery of the pending event, cancel answers = the pending code or any resolved race CANCELLED|k / COMPLETED|k /
+DROPPED|k).  No further hypothesis: since the repair of the `Dropped(0)` arm the body may write again after
+`StreamResult::Dropped`.  Any buffers, all payload kinds, both task ABI versions; induction over the step relation,
+no depth bound. -/
 
-/-- **`stream_never_traps_partial`**: under `NoUseAfterDropped` every legal step of a guest-writer stream
-channel is free of Rust panics (`advance`'s `assert!`, `write_all`'s `assert!`, `unwrap`s of the waitable
-machine, `unreachable!`) and of host traps, and leads to a reachable state again. -/
-theorem stream_never_traps_partial {p : SWP} (hh : p.hd ≠ 0) (hv : p.v = 1 ∨ p.v = 2) {s : ChanSys} {tr : List Ev}
+/-- **`stream_never_traps`**: every legal step of a guest-writer stream channel is free of Rust panics
+(`advance`'s `assert!`, `write_all`'s `assert!`, `unwrap`s of the waitable machine, `unreachable!`) and of host
+traps, and leads to a reachable state again. -/
+theorem stream_never_traps {p : SWP} (hh : p.hd ≠ 0) (hv : p.v = 1 ∨ p.v = 2) {s : ChanSys} {tr : List Ev}
     (h : SWReach p s tr) (l : CLabel) (hl : SWLegal p s l) :
     ∃ s' evs, s.step l = .ok s' evs ∧ s'.h.trapped = false ∧ SWReach p s' (tr ++ evs) := by
   have hg := sw_step_safe p s l (sw_reach_inv hh hv h).1 hl
@@ -370,6 +307,26 @@ theorem stream_never_traps_partial {p : SWP} (hh : p.hd ≠ 0) (hv : p.v = 1 ∨
   | ok s' evs =>
     rw [hs] at hg
     exact ⟨s', evs, rfl, hg.1, SWReach.step h hl hs⟩
+
+/-- the guest's `done` flag and the host's view agree whenever no operation is in flight: the writer is marked
+done exactly when the host's end is done (so no write can reach a done end) -/
+theorem writer_done_iff_host_done {p : SWP} (hh : p.hd ≠ 0) (hv : p.v = 1 ∨ p.v = 2) {s : ChanSys} {tr : List Ev}
+    (h : SWReach p s tr) (hidle : s.g.act.isNone = true) (w : Writer) (hw : s.g.sw = some w) :
+    w.done = true ↔ s.h.e.st = .done := by
+  obtain ⟨_, _, sh, rfl, hok⟩ := (sw_reach_inv hh hv h).1
+  cases sh with
+  | idle n gd hdn kept win rcv =>
+    simp only [swOk] at hok
+    simp only [swSys, SWP.g0, Option.some.injEq] at hw
+    subst hw
+    cases hdn <;> cases gd <;> simp_all [swSys, swHost, stOf]
+  | closed => simp [swSys, SWP.g0] at hw
+  | gone n st win rcv => simp [swSys, SWP.g0] at hw
+  | ready n gd hdn b win rcv => simp [swSys, SWP.g0, Act.isNone] at hidle
+  | allNew n one items gd hdn win rcv => simp [swSys, SWP.g0, Act.isNone] at hidle
+  | running n one b gs gd hdn win rcv => simp [swSys, SWP.g0, Act.isNone] at hidle
+  | waiting n k b pr pend rcv => cases k <;> simp [swSys, SWP.g0, Act.isNone, OpK.act] at hidle
+  | queued n k b code rcv => cases k <;> simp [swSys, SWP.g0, Act.isNone, OpK.act] at hidle
 
 /-- in every reachable state the host has not trapped -/
 theorem stream_writer_reachable_untrapped {p : SWP} (hh : p.hd ≠ 0) (hv : p.v = 1 ∨ p.v = 2) {s : ChanSys} {tr : List Ev}
@@ -413,7 +370,7 @@ values held by a `write_all` not polled yet.  `s.h.received` = everything the pe
 order.  Values are numbered 1, 2, … in the order the body writes them (`nextId` = the next fresh number). -/
 
 /-- **`stream_writer_fifo`**: every legal step of a reachable guest-writer stream channel (any body instruction,
-any behaviour of the host the rules allow, under `NoUseAfterDropped`) hands the reader exactly the next `j` values
+any behaviour of the host the rules allow; no further hypothesis) hands the reader exactly the next `j` values
 the guest exposes, in order — nothing else, nothing twice, nothing skipped —: `received' = received ++
 nextUp.take j`; and afterwards the guest exposes exactly the rest (`nextUp' = nextUp.drop j`: the cursor moved by
 exactly what the host took, across BLOCKED / partial transfers / delivery / cancel races / the `write_all` loop) —
